@@ -101,7 +101,9 @@ def snapshot(root):
         with os.scandir(r) as it:
             for e in it:
                 p = e.path
-                if e.is_dir(follow_symlinks=False):
+                if e.is_dir(follow_symlinks=False) or (e.is_symlink() and os.path.isdir(p) and
+                                                       not os.path.realpath(p).startswith(root + os.sep)):
+                    # a symbolic link to a directory outside the universe is, for the library, a directory (C13)
                     t[p] = ('d',)
                     stack.append(p)
                 else:
